@@ -88,8 +88,11 @@ None == [kind |-> "none"]
 
 \* a sealed token; root / viaExpired are history (ghost) fields: the role the first issue of this token's
 \* lineage carried, and whether an expired token occurs among its ancestors
-Seal(key, role, exp) == [kind |-> "sealed", key |-> key, role |-> role, exp |-> exp, dmg |-> "none",
-                         root |-> role, viaExpired |-> FALSE]
+\* ttl: "long" (expiry far away / born expired) or "short" (a real expiry of a second or two: such a token
+\* is alive when issued and expires while the history runs, see Expire)
+SealT(key, role, exp, ttl) == [kind |-> "sealed", key |-> key, role |-> role, exp |-> exp, ttl |-> ttl, dmg |-> "none",
+                               root |-> role, viaExpired |-> FALSE]
+Seal(key, role, exp) == SealT(key, role, exp, "long")
 
 \* damage classes of a sealed token (bytes before base64: 12 nonce, ciphertext, 16 tag)
 SealedDamage == {"flip_nonce", "flip_body", "flip_tag", "trunc0", "trunc5", "trunc11", "trunc12", "trunc13", "trunc27", "ext1"}
@@ -112,10 +115,14 @@ EnforceOutcome(self, t, path, method) ==
 \* statement of C35, first sentence
 Honoured(self, t, path, method) == Opens(self, t) /\ t.exp = "future" /\ PolicyAllows(t.role, path, method)
 
-\* RefreshKey(token, duration): dur \in {"pos", "neg"}
+\* durations: "pos" (far future), "neg" (born expired), "short" (alive now, expires within the history)
 RefreshOutcome(self, t) == IF ~Opens(self, t) THEN "error" ELSE IF t.exp = "past" THEN "expired" ELSE "ok"
-ExpOf(dur) == IF dur = "pos" THEN "future" ELSE "past"
-Refreshed(t, dur) == [t EXCEPT !.exp = ExpOf(dur), !.viaExpired = t.viaExpired \/ t.exp = "past"]
+ExpOf(dur) == IF dur = "neg" THEN "past" ELSE "future"
+TtlOf(dur) == IF dur = "short" THEN "short" ELSE "long"
+Issue(key, role, dur) == SealT(key, role, ExpOf(dur), TtlOf(dur))
+Refreshed(t, dur) == [t EXCEPT !.exp = ExpOf(dur), !.ttl = TtlOf(dur), !.viaExpired = t.viaExpired \/ t.exp = "past"]
+\* time passes beyond the short expiries
+Expire(t) == IF t.kind = "sealed" /\ t.ttl = "short" THEN [t EXCEPT !.exp = "past"] ELSE t
 
 (***************************************************************************)
 (* Observable projection of a token: the three role probes and expiry.     *)
